@@ -712,6 +712,18 @@ def rctx_method(I, rec, name, args, kwargs):
         models.set_item(I, m, args[0], to_any(args[1]) if not isinstance(args[1], VList) else VAny(
             Val.obj(z3.Int(fresh_name('newlist')))))
         return args[1]
+    if name == 'pop':
+        kt = models.strterm(args[0])
+        present = z3.Select(m.has, kt)
+        old = VAny(z3.Select(m.val, kt))
+        if I.decide(present, 'rcontext-pop-present'):
+            m.has = z3.Store(m.has, kt, z3.BoolVal(False))
+            return old
+        if len(args) > 1:
+            return args[1]
+        from .interp import Raised
+        from .values import VExc
+        raise Raised(VExc(KeyError, [args[0]]))
     raise Unsupported('rcontext.%s in emitted code' % name)
 
 
@@ -1302,6 +1314,10 @@ def schema_contracts(specs):
         static = []
         for pos, (txt, ln, col) in sorted(em.tokens.items()):
             src = s['text']
+            if not src.startswith('<?xml') and s.get('cls', 'PageTemplate') == 'PageTemplate':
+                # positions count characters of the document as it is parsed: in non-XML mode CR LF and a
+                # lone CR are ONE line break (lines and columns are those of the file as an editor shows it)
+                src = src.replace('\r\n', '\n').replace('\r', '\n')
             ok = src[pos:pos + len(txt)] == txt
             before = src[:pos]
             ok_lc = (ln == before.count('\n') + 1) and (col == pos - (before.rfind('\n') + 1))
